@@ -54,7 +54,7 @@ ASSUMPTIONS = ['the geometry of every initial mesh is affine per element (verifi
                'on a periodic mesh that was subsampled by take/compress/union/difference the neighbour relation across the seam is unspecified: boundary '
                'and interfaces are not compared there; for periodic states oint x.n is compared per non-periodic direction',
                'two-space products are observed factor-wise (the element order i*len(topo2)+j is confirmed by the native element measures)']
-BUDGET_S = {'quick': 3600, 'thorough': 14400}    # generous: the box is shared; unloaded quick ~ 2 min on 16 procs
+BUDGET_S = {'quick': 7200, 'thorough': 28800}    # wall-clock guard only; the box is shared (load > 300 while this was built). Unloaded: quick ~ 2 min on 16 procs
 
 TOL = 1e-9
 
